@@ -400,19 +400,12 @@ fn judge(case_argv: &[Vec<u8>], envp: &[Vec<u8>], keys: &[Vec<u8>], path: &str, 
                         if *w == want {
                             continue;
                         }
-                        let in_relro = ri.relro.map(|(a, b)| *off >= a && *off + 8 <= b).unwrap_or(false);
-                        if in_relro {
-                            // nothing writes to the RELRO part after start-up
+                        // judged: slots in the read-only-after-relocation part and the compiler's DW.ref.* pointers,
+                        // which no program writes; other writable slots may have been reassigned legitimately
+                        if ri.strict(*off) {
                             f.push(Failure::new(
-                                "start::relocate|wrong-slot|read-only-after-relocation slot differs from base + addend",
+                                "start::relocate|wrong-slot|relocated slot differs from base + addend",
                                 format!("[{mode}] slot at link address {off:#x} (addend {addend:#x}) holds {w:#x}, load base {base:#x}: expected {want:#x}"),
-                            ));
-                            break;
-                        } else if *w == *addend && *base != 0 {
-                            // a writable slot may have been reassigned by the program, but never to its own link-time value
-                            f.push(Failure::new(
-                                "start::relocate|unrelocated-slot|writable slot still holds its link-time value",
-                                format!("[{mode}] slot at link address {off:#x} still holds its addend {addend:#x}; load base {base:#x}, expected {want:#x}"),
                             ));
                             break;
                         }
@@ -651,7 +644,7 @@ pub fn run(ctx: &Ctx) {
     let relocs: [Option<elf::RelocInfo>; 6] = std::array::from_fn(|b| elf::read(&probe_path(&root, b)));
     ctx.extra(
         "relocations",
-        serde_json::json!(relocs.iter().enumerate().map(|(b, r)| format!("{}: {}", MODES[b], r.as_ref().map(|r| format!("{} relative, self-relocating={}", r.relative.len(), r.self_relocating)).unwrap_or_else(|| "unreadable".into()))).collect::<Vec<_>>()),
+        serde_json::json!(relocs.iter().enumerate().map(|(b, r)| format!("{}: {}", MODES[b], r.as_ref().map(|r| format!("{} relative ({} judged strictly), self-relocating={}", r.relative.len(), r.relative.iter().filter(|(o, _)| r.strict(*o)).count(), r.self_relocating)).unwrap_or_else(|| "unreadable".into()))).collect::<Vec<_>>()),
     );
     // changing the probe's ids needs root and a probe that other users may execute: try once
     let is_root = unsafe { libc::geteuid() } == 0
